@@ -4,7 +4,6 @@ import (
 	"fmt"
 	"reflect"
 	"sort"
-	"strings"
 
 	"github.com/go-kid/ioc/container/processors"
 	"github.com/go-kid/ioc/container/support"
@@ -105,15 +104,17 @@ func c07Gen(c *core.Ctx) func(yield func(c07Case) bool) {
 		rec(0, nil)
 		// names that differ only by a blank at their edge or by case, requested with and without
 		// tag arguments: a name selects exactly the component registered under exactly that name
-		odd := []string{"x", "x ", " x", "X", "x.y", "x,y"}
-		for _, present := range [][]string{{"x", "x "}, {"x", " x"}, {"x "}, {" x"}, {"x", "X"}, {"X"}, {"x.y", "x"}, {"x", "x ", " x", "X"}} {
+		// (a comma inside brackets belongs to the name: generic default names look like Pair[int,string])
+		odd := []string{"x", "x ", " x", "X", "x.y", "x,y", "c[u,v]", "c[u", "p(a,b)", "{a,b}"}
+		for _, present := range [][]string{{"x", "x "}, {"x", " x"}, {"x "}, {" x"}, {"x", "X"}, {"X"}, {"x.y", "x"}, {"x", "x ", " x", "X"},
+			{"c[u,v]"}, {"c[u,v]", "c[u"}, {"c[u"}, {"p(a,b)", "{a,b}"}, {"{a,b}", "x"}} {
 			var pop []scen.Inst
 			for _, n := range present {
 				pop = append(pop, scen.Inst{Typ: "TA", Name: n})
 			}
 			for _, req := range odd {
-				if strings.Contains(req, ",") {
-					continue // a comma ends the value part of a tag
+				if req == "x,y" {
+					continue // a top-level comma ends the value part of a tag
 				}
 				for _, kind := range []string{"PA", "I1", "ANY"} {
 					for _, opt := range []bool{false, true} {
